@@ -1,3 +1,4 @@
+mod conc;
 mod crash;
 mod dbx;
 mod enc;
@@ -11,6 +12,7 @@ fn main() {
     match args.cmd().as_str() {
         "hist" => hist::run(&args),
         "crash" => crash::run(&args),
+        "conc" => conc::run(&args),
         "fault" => fault::run(&args),
         other => {
             eprintln!("unknown subcommand {other:?}");
